@@ -35,28 +35,28 @@ func init() {
 		run: runC06,
 	})
 	addWitness(witness{Prop: "C06", Name: "descriptor-before-last-filelist", File: "pkg/core/bundle_pack.go",
-		Old: "\tif len(fileList) != 0 {\n\t\tbundle.l.Debug(\"Uploading filelist (final)\")",
-		New: "\tif err = uploadBundleDescriptor(ctx, bundle); err != nil {\n\t\treturn err\n\t}\n\tif len(fileList) != 0 {\n\t\tbundle.l.Debug(\"Uploading filelist (final)\")",
+		Old:    "\tif len(fileList) != 0 {\n\t\tbundle.l.Debug(\"Uploading filelist (final)\")",
+		New:    "\tif err = uploadBundleDescriptor(ctx, bundle); err != nil {\n\t\treturn err\n\t}\n\tif len(fileList) != 0 {\n\t\tbundle.l.Debug(\"Uploading filelist (final)\")",
 		Expect: "descriptor-last"})
 	addWitness(witness{Prop: "C06", Name: "descriptor-overwrite", File: "pkg/core/bundle_pack.go",
-		Old: "\t\t\tmodel.GetArchivePathToBundle(bundle.RepoID, bundle.BundleID),\n\t\t\tbytes.NewReader(buffer), storage.NoOverWrite)\n",
-		New: "\t\t\tmodel.GetArchivePathToBundle(bundle.RepoID, bundle.BundleID),\n\t\t\tbytes.NewReader(buffer), storage.OverWrite)\n",
+		Old:    "\t\t\tmodel.GetArchivePathToBundle(bundle.RepoID, bundle.BundleID),\n\t\t\tbytes.NewReader(buffer), storage.NoOverWrite)\n",
+		New:    "\t\t\tmodel.GetArchivePathToBundle(bundle.RepoID, bundle.BundleID),\n\t\t\tbytes.NewReader(buffer), storage.OverWrite)\n",
 		Expect: "create-if-absent"})
 	addWitness(witness{Prop: "C06", Name: "writeMetadata-ignores-flag", File: "pkg/core/meta_object.go",
-		Old: "return msCRC.Put(m.contexter(), pth, bytes.NewReader(buffer), noOverwrite)",
-		New: "return msCRC.Put(m.contexter(), pth, bytes.NewReader(buffer), !noOverwrite)",
+		Old:    "return msCRC.Put(m.contexter(), pth, bytes.NewReader(buffer), noOverwrite)",
+		New:    "return msCRC.Put(m.contexter(), pth, bytes.NewReader(buffer), !noOverwrite)",
 		Expect: "create-if-absent"})
 	addWitness(witness{Prop: "C06", Name: "list-skips-any-error", File: "pkg/core/bundle_list.go",
-		Old: "\t\t\tif errors.Is(err, storagestatus.ErrNotExists) {\n\t\t\t\tcontinue\n\t\t\t}\n\t\t\toutput <- bundleEvent{err: err}\n\t\t\tcontinue",
-		New: "\t\t\tif errors.Is(err, storagestatus.ErrNotExists) {\n\t\t\t\tcontinue\n\t\t\t}\n\t\t\toutput <- bundleEvent{err: err}",
+		Old:    "\t\t\tif errors.Is(err, storagestatus.ErrNotExists) {\n\t\t\t\tcontinue\n\t\t\t}\n\t\t\toutput <- bundleEvent{err: err}\n\t\t\tcontinue",
+		New:    "\t\t\tif errors.Is(err, storagestatus.ErrNotExists) {\n\t\t\t\tcontinue\n\t\t\t}\n\t\t\toutput <- bundleEvent{err: err}",
 		Expect: "reader-requires-descriptor"})
 	addWitness(witness{Prop: "C06", Name: "latest-ignores-descriptor", File: "pkg/core/bundle_list.go",
-		Old: "\t\tif ks[i] == model.GetArchivePathToBundle(repo, apc.BundleID) {\n\t\t\treturn apc.BundleID, nil\n\t\t}",
-		New: "\t\tif apc.BundleID != \"\" {\n\t\t\treturn apc.BundleID, nil\n\t\t}",
+		Old:    "\t\tif ks[i] == model.GetArchivePathToBundle(repo, apc.BundleID) {\n\t\t\treturn apc.BundleID, nil\n\t\t}",
+		New:    "\t\tif apc.BundleID != \"\" {\n\t\t\treturn apc.BundleID, nil\n\t\t}",
 		Expect: "reader-requires-descriptor"})
 	addWitness(witness{Prop: "C06", Name: "commit-success-without-descriptor", File: "pkg/core/diamond_commit.go",
-		Old: "\terr = uploadBundleDescriptor(d.contexter(), d.Bundle)\n\tif err != nil {\n\t\treturn err\n\t}\n\n\td.l.Info(\"uploaded bundle id\"",
-		New: "\tif count > 0 {\n\t\terr = uploadBundleDescriptor(d.contexter(), d.Bundle)\n\t\tif err != nil {\n\t\t\treturn err\n\t\t}\n\t}\n\n\td.l.Info(\"uploaded bundle id\"",
+		Old:    "\terr = uploadBundleDescriptor(d.contexter(), d.Bundle)\n\tif err != nil {\n\t\treturn err\n\t}\n\n\td.l.Info(\"uploaded bundle id\"",
+		New:    "\tif count > 0 {\n\t\terr = uploadBundleDescriptor(d.contexter(), d.Bundle)\n\t\tif err != nil {\n\t\t\treturn err\n\t\t}\n\t}\n\n\td.l.Info(\"uploaded bundle id\"",
 		Expect: "descriptor-last"})
 }
 
@@ -238,6 +238,9 @@ func runC06(c *Ctx) {
 	}
 	c.requireInstances("immutable-after.deleters", 3)
 	_ = types.Universe
+	// failures surface: the upload fan-out protocol guarantees that a worker's error is received before the done signal
+	// (shared with C04/C15): otherwise uploadBundle goes on to write the descriptor of an incomplete bundle
+	checkCoreFanouts(c)
 }
 
 // checkSilentSkipOnlyNotExists: in a worker loop `for k := range input { v, err := f(k); if err != nil { ... continue } ; output <- ok }`
